@@ -8,14 +8,14 @@ from vlib.worker import exc_key
 PROPERTY = 'C06'
 LEVEL = 'exploration'
 RULE = ('Inputs: small generated documents of every selectable map (4010 -> 997, 5010 -> 999), 1-3 sets, 1-3 groups, with 0-8 stacked catalogue faults, many errors on one segment, '
-        'missing ST02/GS06, structural mutations, envelope soups (a well-formed ISA followed by header, trailer and body segments in arbitrary order), and a hostile family written with delimiters other than ~ * : whose offending values contain ~ * : ^ and are 1-200 characters long; plus the fixtures. '
+        'missing ST02/GS06, structural mutations, envelope soups (a well-formed ISA followed by header, trailer and body segments in arbitrary order), and a hostile family written with delimiters other than ~ * : whose offending values contain ~ * : ^ and are 1-200 characters long; plus the fixtures. Every fortieth step the last 2-3 inputs also go through the command-line validator (one invocation, several files); each <file>.997 must have the body of the in-process acknowledgement and pass the same checks. '
         'For every acknowledgement written: (a) complete - no "Failed to create" log record, runs ISA..IEA; (b) an independent tokenizer + recount find no envelope discrepancy (SE/GE/IEA counts, '
         'trailer ids, unique ST02) and the real X12Reader reports no envelope error either; (c) only acknowledgement segment ids occur, AK3/AK4/IK3/IK4 stay within their element counts and the '
         'number of AK2/AK5 loops equals the sets in the error tree - echoed data added or split nothing; (d) fed back to x12n_document it selects the 997/999 map (no map-not-found) and is accepted '
         'whenever every copied value fits the acknowledgement\'s own element definitions. non-trivial = distinct acknowledgements containing >=1 AK4/IK4 with an echoed value.')
 ASSUMPTIONS = ['(d) acceptance is required only when the values copied from the input (control numbers, ids, echoed data) fit the 997/999 element definitions; otherwise only "no exception, no map-not-found"',
                'inputs for which validation itself does not complete are C07\'s business']
-REQUIRED_COUNTERS = ['inputs:envelope-soup', 'acks', 'acks:997', 'acks:999', 'acks-with-echo', 'echo-with-ack-delimiter', 'reread', 'revalidated', 'revalidated:accepted']
+REQUIRED_COUNTERS = ['cli:invocations', 'cli:acks-compared', 'inputs:envelope-soup', 'acks', 'acks:997', 'acks:999', 'acks-with-echo', 'echo-with-ack-delimiter', 'reread', 'revalidated', 'revalidated:accepted']
 MIN_CASES = {'quick': 500, 'thorough': 15000}
 WATCHDOG_S = {'quick': 1200, 'thorough': 7200}
 
@@ -227,7 +227,52 @@ def many_errors_one_segment(rng, doc):
     return d
 
 
+def cli_phase(ctx, texts, sigs):
+    """the command-line validator (python -m pyx12.scripts.x12valid f1 f2 ...) writes <file>.997 for every input of ONE invocation: each must pass the
+    same checks as the acknowledgement written in process, and carry the same body"""
+    import copy
+    import os
+    import subprocess
+    import sys
+    d = os.path.join(ctx.scratch, 'c06-cli-%d' % ctx.shard)
+    os.makedirs(d, exist_ok=True)
+    for f in os.listdir(d):
+        os.unlink(os.path.join(d, f))
+    paths = []
+    for i, t in enumerate(texts):
+        pth = os.path.join(d, 'in%d.x12' % i)
+        with open(pth, 'w', encoding='ascii', newline='') as fd:
+            fd.write(t)
+        paths.append(pth)
+    p = subprocess.run([sys.executable, '-m', 'pyx12.scripts.x12valid', '-q'] + paths, stdout=subprocess.PIPE, stderr=subprocess.PIPE,
+                       env=dict(os.environ, PYTHONWARNINGS='ignore'), timeout=300, cwd=d)
+    ctx.count('cli:invocations')
+    for i, (t, pth) in enumerate(zip(texts, paths)):
+        case = {'cli': True, 'file_index': i, 'files': len(texts), 'text': t if len(t) < 60000 else None}
+        res = pipeline.validate(t, charset='E')
+        if res.exc is not None:
+            continue
+        out = pth + '.997'
+        got = open(out, encoding='ascii', newline='').read() if os.path.exists(out) else ''
+        ctx.count('cli:acks-compared')
+        if bool(got) != bool(res.ack):
+            ctx.viol('cli:ack-presence', 'the command-line validator writes an acknowledgement file where the library writes none, or the other way round', case,
+                     {'cli': got[:300], 'in_process': (res.ack or '')[:300], 'stderr': p.stderr.decode('ascii', 'replace')[-300:]})
+            continue
+        if not got:
+            continue
+        body = lambda a: [(s_, e_) for s_, e_ in ref_ack.parse(a) if s_ not in ('ISA', 'GS', 'ST', 'SE', 'GE', 'IEA')]
+        if body(got) != body(res.ack):
+            ctx.viol('cli:ack-body-differs:file-%s-of-several' % ('first' if i == 0 else 'later'), 'the acknowledgement file of the command-line validator differs from the acknowledgement written in process', case,
+                     {'cli_len': len(got), 'in_process_len': len(res.ack), 'cli_tail': got[-300:]})
+            continue
+        r2 = copy.copy(res)
+        r2.ack = got
+        check(ctx, t, r2, case, sigs)
+
+
 def run(ctx):
+    recent = []
     sigs = set()
     n = 0
     fx = corpus.fixtures()
@@ -291,6 +336,11 @@ def run(ctx):
             ctx.count('not-completed:' + type(res.exc).__name__)
             continue
         check(ctx, text, res, case, sigs)
+        if res.ack and all(ord(c) < 128 for c in text) and len(text) < 200000:
+            recent = (recent + [text])[-3:]
+        if k % 40 == 39 and len(recent) >= 2:
+            cli_phase(ctx, sorted(recent, key=lambda x_: -len(x_)) if (k // 40) % 2 else list(recent), sigs)
+            n += 1
         if res.ack:
             ctx.sample({'map': e['file'], 'family': kinds, 'ack': res.ack[:700]})
     ctx.case(n=n, sigs=sorted(sigs))
